@@ -40,7 +40,7 @@ DECLS = {
 }
 SOURCES = [
     ("n + 1", ["plain"]), ("s + '!'", ["plain"]), ("[1, 2, 3].map(x, x * n)", ["plain"]), ("n > 1 ? 'big' : 'small'", ["plain"]), ("n > 0 || 1 / n > 0", ["plain", "failing"]),
-    ("a.b", ["dotted"]), ("a.b + a.c", ["dotted"]), ("has(m.k) ? m.k : 0", ["nested"]), ("m.k + n", ["nested"]), ("x", ["package"]), ("x + 1", ["package"]), ("p.x", ["package"]),
+    ("a.b", ["dotted"]), ("a.b + a.c", ["dotted"]), ("has(m.k) ? m.k : 0", ["nested"]), ("has(m.k) ? 10 / m.k : -1", ["nested", "nested-zero"]), ("has(m.j) ? 100 : (has(m.k) ? 10 / m.k : -1)", ["nested", "nested-zero"]), ("m.k + n", ["nested"]), ("x", ["package"]), ("x + 1", ["package"]), ("p.x", ["package"]),
     ("CEL + ex_1", ["keywordish"]), ("[n, n].exists(e, e == n) && n < 10", ["plain"]), ("10 / n", ["plain", "failing"]), ("size(m) + [1].map(i, i)[0]", ["nested"]),
     ("1 + 1", ["empty"]), ("'lit' + 'eral'", ["empty"]), ("[3, 2, 1].filter(v, v > 1)", ["empty"]), ("h1(n)", ["plain", "host"]), ("n.h2(2)", ["plain", "host"]),
     # the same literal text cooked and raw (three positions apart: both spellings land in the same worker's slice)
@@ -69,6 +69,7 @@ BINDINGS = {
     "failing": [{"n": ("int", 0), "s": ("string", "z")}, {"s": ("string", "only-s")}],
     "dotted": [{"a.b": ("int", 1), "a.c": ("int", 10)}, {"a.b": ("int", 2), "a.c": ("int", 20)}, {"a.b": ("int", 3)}, {}],
     "nested": [{"m": ("map", ((("string", "k"), ("int", 4)),)), "n": ("int", 1)}, {"m": ("map", ()), "n": ("int", 2)}, {"m": ("map", ((("string", "k"), ("int", 9)), (("string", "j"), ("int", 1)))), "n": ("int", 3)}],
+    "nested-zero": [{"m": ("map", ((("string", "k"), ("int", 0)),)), "n": ("int", 1)}, {"m": ("map", ((("string", "k"), ("int", 0)), (("string", "j"), ("int", 0)))), "n": ("int", 2)}, {}],
     "package": [{"p.x": ("int", 11)}, {"x": ("int", 12)}, {"p.x": ("int", 13), "x": ("int", 14)}, {}],
     "keywordish": [{"CEL": ("int", 100), "ex_1": ("int", 1)}, {"CEL": ("int", 200), "ex_1": ("int", 2)}, {}],
     "zeros": [{"d": ("double", 1.0), "z": ("double", 0.0)}, {"d": ("double", 1.0), "z": ("double", -0.0)}, {"d": ("double", -1.0), "z": ("double", 0.0)}, {"d": ("double", -1.0), "z": ("double", -0.0)}, {"d": ("double", 0.0), "z": ("double", 1.0)}, {"d": ("double", -0.0), "z": ("double", 1.0)}],
